@@ -10,6 +10,10 @@ CHECKS = {
                 technique="runtime monitoring: scripted-transport workload + generator-as-oracle byte comparison (exhaustive small segmentations + seeded random)",
                 text="Runs the production response pipeline against generator-built responses over all framings, chunkings, segmentations (all 2^(n-1) splits of small wires, every split point of 24 bases, random) and caller read plans; the oracle compares every delivered byte with the generator's payload. Held on the executions explored, not a proof.",
                 note="Trusts the harness generator/oracle and that hook H1 replaces only the TCP dial. Universality over payload x chunking x segmentation x read plan is sampled except in the enumerated sub-spaces."),
+    "C02": dict(cat="fault_enumeration", design="DESIGN.md §3 C02",
+                technique="runtime monitoring with fault injection: every cut offset / I/O-error offset / framing-byte corruption through the scripted transport, strict RFC 9112 reference decoder as online prefix oracle after every read",
+                text="Enumerates every truncation offset, every offset replaced by an I/O error (sticky and one-shot, followed by 0..4 further reads) and every single-byte corruption of every chunk-framing byte for 30 fixed bases (all framings), plus random and >64 KiB-chunk bases; after every read the bytes handed out must be a prefix of what a strict reference decoder says was really sent, and a damaged frame must end with Err.",
+                note="Trusts the reference decoder and its gray-zone classification (lenient-parser deviations are executed but not judged beyond the prefix rule). Complete for the fixed bases; sampled elsewhere."),
 }
 
 NOT_APPLICABLE = {}
